@@ -86,7 +86,7 @@ def check_program(item):
         if sp not in kwargs:
             kwargs[sp] = harness.sym_value("spl_" + sp, "str")
     run = harness.run_generated(gen.text, gen.fn_name, kwargs, stub_choice=True,
-                                opts={"prune": True, "max_loop": 200})
+                                opts={"prune": True, "max_loop": 200, "float_mode": "fp" if numeric == "fp" else "real"})
     res["paths"] = len(run.paths)
     res["encoded"] = run.encoded_digest()
     res["stubs"] = run.notes
@@ -196,6 +196,10 @@ def main(tier):
         items.append((kind, p, "real", timeout_ms))
         if kind in ("single", "doc"):
             items.append((kind, p, "int", timeout_ms))
+        if kind in ("single", "doc", "mixed") or tier == "thorough":
+            # numeric fields over ALL binary64 values (NaN, +-inf, -0.0 included): a 'simplification' such as
+            # not (a < b) -> a >= b is only wrong on NaN
+            items.append((kind, p, "fp", timeout_ms))
     results = common.pmap(check_program, items, chunksize=4)
 
     total = Tally()
@@ -252,9 +256,9 @@ def main(tier):
         "functions_encoded": encoded,
         "stubs_used": sorted(stubs) + ["deterministic_choice replaced by 'report (key, population, weights)'"],
         "bounds": "inputs: every condition field ranges over all values of its inferred sort (numbers: all "
-                  "reals incl. every int and finite float; strings: all strings; containers: tuples of length 2); "
-                  "programs: the enumerated family only (see family_members_by_kind); NaN/inf, mixed-sort field "
-                  "values and longer containers are outside the claim",
+                  "reals incl. every int and finite float, and separately all binary64 values incl. NaN, +-inf, -0.0; "
+                  "strings: all strings; containers: tuples of length 2); programs: the enumerated family only (see "
+                  "family_members_by_kind); mixed-sort field values and longer containers are outside the claim",
         "explanation": "per program and per symbolic path one solver query "
                        "`path condition AND reference_selection != implementation_label`; unsat everywhere",
     }
